@@ -127,8 +127,9 @@ PLANS = {
     'C06': {
         'prefixes': ['C06_'],
         'mc': {'quick': [('sep', dict(invariants=['Inv_C06g', 'Inv_C06l'], prmset='PrmSepQ', ceilos=('a', 'b'), nt=2, lattice='LatticeD', maxper=1, orders=('desc',))),
-                         ('excl', dict(invariants=['Inv_C06g'], prmset='PrmPinM', ceilos=('a', 'b'), nt=2, lattice='LatticeE', maxper=1))],
-               'thorough': [('sep', dict(invariants=['Inv_C06g', 'Inv_C06l'], prmset='PrmSep', ceilos=('a', 'b'), nt=2, lattice='LatticeD', maxper=1, orders=('asc', 'desc'))),
+                         ('excl', dict(invariants=['Inv_C06g'], prmset='PrmPinM', ceilos=('a', 'b'), nt=2, lattice='LatticeE', maxper=1)),
+                         ('mergeloop', 'MC_Merge')],
+               'thorough': [('mergeloop', 'MC_Merge'), ('sep', dict(invariants=['Inv_C06g', 'Inv_C06l'], prmset='PrmSep', ceilos=('a', 'b'), nt=2, lattice='LatticeD', maxper=1, orders=('asc', 'desc'))),
                             ('sep4', dict(invariants=['Inv_C06g', 'Inv_C06l'], prmset='PrmSepQ', ceilos=('a', 'b'), nt=2, lattice='LatticeC', maxper=1, orders=('asc', 'desc'))),
                             ('order', dict(invariants=['Inv_C06l'], prmset='PrmPinO', ceilos=('a',), nt=4, lattice='LatticeF', maxper=2, orders=('desc',))),
                             ('excl', dict(invariants=['Inv_C06g'], prmset='PrmPinM', ceilos=('a', 'b'), nt=2, lattice='LatticeE', maxper=1)),
